@@ -153,12 +153,12 @@ _c("C06",
    "PARTIAL. Coq theorems (Props/C06.v, closed under the global context) over the executable model of the deserializer "
    "(Ser/Deserialize.v) and of the constructor: (a) the extra-key clause -- the exhaustive case analysis of "
    "additional-properties x keep_undefined x ignore_invalid_additional_properties (C06_extra_keys_dropped / _rejected / _cases, "
-   "C06_keep_undefined_adjustment); (b) the error-class clause -- for every well-formed class environment without a "
-   "positional container outside a multi-field wrapper, every rejection by Deserializer(cls).deserialize is a "
-   "TypeError/ValueError, for all documents, flags and nesting (C06_error_class, by induction over declarations and fuel; "
+   "C06_keep_undefined_adjustment); (b) the error-class clause -- for every well-formed class environment (positional "
+   "containers included: finding F9 is repaired, a document shorter than the positional items is a ValueError), every "
+   "rejection by Deserializer(cls).deserialize is a TypeError/ValueError, for all documents, flags and nesting "
+   "(C06_error_class = the full statement C06_error_class_statement, by induction over declarations and fuel; "
    "C06_constructor_error_class for the final authority; C06_wrapper_error_class: AnyOf/OneOf/AllOf/NotField raise ValueError "
-   "whatever their alternatives raise), in general the only other exception is IndexError (C06_error_class_all) and that one "
-   "occurs (C06_error_class_refuted: the full statement is false of the faithful model, finding F9); (c) the exception handlers "
+   "whatever their alternatives raise); (c) the exception handlers "
    "of the deserializer are re-read from serialization.py on every run (Gen/DeserFlow.v) and the facts the model relies on "
    "are proved over them (C06_src_*); (d) the agreement clause (deserialize d == constructor on the documented reading of d) "
    "for the SCALAR fragment -- classes whose fields are numbers, strings, booleans, literal enums or Anything, every object "
